@@ -1,6 +1,6 @@
 // owtransidx — regenerates, from the CURRENT Go source of openwater-core, Lean definitions of the small pure functions the
-// n-d array index algebra (C01, C02, C03), the HDF5 hyperslab arithmetic (C08) and the numerics of util/fn (C18) rest on
-// (the "syntactic tie" for integer / index code: OW/Props/GenTieIndex.lean proves each regenerated definition equal to the
+// n-d array index algebra (C01, C02, C03), the HDF5 hyperslab arithmetic (C08), the numerics of util/fn (C18) and the
+// calendar helpers of models/functions/dates.go (C19) rest on (the "syntactic tie" for integer / index code: OW/Props/GenTieIndex.lean proves each regenerated definition equal to the
 // hand-written model function the property theorems are stated about).
 //
 //	owtransidx [-repo DIR] OUT.lean     (DIR defaults to $OW_REPO, then /repo; OUT is written only when changed;
@@ -9,7 +9,8 @@
 // go/parser + go/ast only. Every function of `table` (and, transitively, every function of the module it calls) is
 // translated into a definition `OW.Gen.Idx.<pkg>.<Func>` (methods: `<pkg>.<Recv>.<Func>`) in the monad
 // `R = Except String`; anything outside the subset makes the function `unsupported: <construct> at file:line` (it is then
-// absent from the generated file, and the theorem about it no longer checks).
+// absent from the generated file, and the theorem about it no longer checks). Of two declarations of one name in a
+// package (build tags) the one in the alphabetically first file is taken; _test.go files are ignored.
 //
 // The subset and its semantics (= Go's for this subset; the prelude of the generated file is the fixed, trusted part):
 //   - types: int → Int (overflow NOT modelled), uint → Nat (`uint(x)` of an int = x mod 2^64), bool → Bool,
@@ -23,14 +24,15 @@
 //     `for i := a; i < b; i++` (also `<=`, and `i--` with `>=`, `>`; `i = a` for an outer variable; the bound must not be
 //     changed by the body, `i` must not be assigned in it) and `for i, v := range xs` / `range xs[k:]` (the body must not
 //     write xs). A loop is `loopN` / `loopRange` of the prelude applied to a body `index → carried → R (Ctl carried ρ)`:
-//     the carried tuple = the outer variables the body assigns, in order of declaration; `Ctl.ret r` = `return` in the body.
+//     the carried tuple = the outer variables the body assigns, ordered by (Lean) type, then by declaration; `Ctl.ret r` = `return` in the body.
 //   - an `if` none of whose branches can `return` / `continue` is a merge `let _m ← if … ; let v := _m.k`; otherwise the
 //     statements after it are continued in each branch that falls through.
 //   - `X == nil` / `X != nil` as the whole condition of an `if` is `match X with | none => … | some X => …`.
 //   - expressions: + - * on int / float64, `/` `%` on int = `goDiv` `goMod` (truncating; zero divisor = panic
 //     "int-div-zero"), float `/`, comparisons, && || ! (operands of && || must be free of panics), literals, `a[i]` =
 //     `getIdx` (panic "index-out-of-range"), `len`, `make([]T, n)`, `append`, `int(…)`, `uint(…)`, math.Abs, field reads,
-//     calls. Operations that can panic are bound (`let _tk ← …`) in Go's evaluation order: operands left to right, the
+//     calls, and a package-level `var T = [...]int{literals}` that no code of its package assigns to (read as that constant
+//     list). Operations that can panic are bound (`let _tk ← …`) in Go's evaluation order: operands left to right, the
 //     right-hand side of an assignment before the bounds check of its indexed left-hand side.
 //   - a function that writes elements of a slice parameter or fields of a pointer parameter returns the updated parameter
 //     as an extra result (Go updates in place); ALIASING between such a parameter and any other argument is out of scope,
@@ -59,17 +61,13 @@ import (
 var table = []struct{ Dir, Recv, Func string }{
 	// priority 1: integer helpers and the index algebra of the template
 	{"data", "", "Product"},
-	{"data", "", "cumulProduct"},
 	{"data", "", "dotProduct"},
 	{"data", "", "Multiply"},
 	{"data", "", "decrement"},
-	{"data", "", "idiv"},
-	{"data", "", "mod"},
 	{"data", "", "Increment"},
 	{"data", "", "Argmax"},
 	{"data", "", "Maximum"},
 	{"data", "", "max"},
-	{"data", "", "min"},
 	{"data", "", "Offsets"},
 	{"data", "", "IDivMod"},
 	{"util/slice", "", "Uniform"},
@@ -96,6 +94,10 @@ var table = []struct{ Dir, Recv, Func string }{
 	{"util/fn", "", "brackets"},
 	{"util/fn", "", "Piecewise"},
 	{"util/fn", "", "FindRoot"},
+	// priority 4: calendar helpers
+	{"models/functions", "", "leapYear"},
+	{"models/functions", "", "daysInMonth"},
+	{"models/functions", "", "_dayOfYear"},
 }
 
 type unsupported struct{ msg string }
@@ -108,7 +110,9 @@ type pkg struct {
 	ffile   map[string]*ast.File
 	types   map[string]*ast.TypeSpec
 	tfile   map[string]*ast.File
-	structs map[string]*structInfo // translated struct types
+	structs map[string]*structInfo    // translated struct types
+	vars    map[string]*ast.ValueSpec // package-level `var x = …` with one name and one value
+	vfile   map[string]*ast.File
 }
 
 type world struct {
@@ -139,7 +143,8 @@ func (w *world) load(dir string) *pkg {
 		return p
 	}
 	p := &pkg{dir: dir, name: dir[strings.LastIndex(dir, "/")+1:], files: map[string]*ast.File{}, funcs: map[string]*ast.FuncDecl{},
-		ffile: map[string]*ast.File{}, types: map[string]*ast.TypeSpec{}, tfile: map[string]*ast.File{}, structs: map[string]*structInfo{}}
+		ffile: map[string]*ast.File{}, types: map[string]*ast.TypeSpec{}, tfile: map[string]*ast.File{}, structs: map[string]*structInfo{},
+		vars: map[string]*ast.ValueSpec{}, vfile: map[string]*ast.File{}}
 	w.pkgs[dir] = p
 	names, _ := filepath.Glob(filepath.Join(w.repo, dir, "*.go"))
 	sort.Strings(names)
@@ -163,6 +168,17 @@ func (w *world) load(dir string) *pkg {
 					p.ffile[key] = f
 				}
 				continue
+			}
+			if gd, ok := d.(*ast.GenDecl); ok && gd.Tok == token.VAR {
+				for _, sp := range gd.Specs {
+					vs := sp.(*ast.ValueSpec)
+					if len(vs.Names) == 1 && len(vs.Values) == 1 {
+						if _, dup := p.vars[vs.Names[0].Name]; !dup {
+							p.vars[vs.Names[0].Name] = vs
+							p.vfile[vs.Names[0].Name] = f
+						}
+					}
+				}
 			}
 			if gd, ok := d.(*ast.GenDecl); ok && gd.Tok == token.TYPE {
 				for _, s := range gd.Specs {
